@@ -210,7 +210,8 @@ EndsWithEmptyCursor ==
 
 BadCursorRejected == res.kind = "invalid-params" => (res.items = <<>> /\ res.next = 0)
 
-\* pages never exceed the page size; a non-final page is full; a cursor names the page's last item
+\* as built by the server (`full`) pages never exceed the page size, a non-final page is full and a cursor
+\* names the page's last item; what arrives (`items`) is a subsequence of it
 PageShape ==
   res.kind \in {"page", "probe"} =>
      /\ Len(res.full) <= pageSize
